@@ -119,7 +119,10 @@ class Sig:
         """the signature's elements without the 0x800 envelope (what an aggregation response carries)"""
         parts = [c.enc() for c in (order or self.chains)]
         if self.cal:
-            parts.append(self.cal.enc())
+            if getattr(self, "cal_first", False):
+                parts.insert(0, self.cal.enc())
+            else:
+                parts.append(self.cal.enc())
         if self.pub:
             parts.append(tlv(0x803, tlv(0x10, tlv(0x02, be(self.pub[0])) + tlv(0x04, self.pub[1])) + tlv(0x09, b"ref\x00")))
         if self.auth:
